@@ -16,13 +16,13 @@ import (
 // ones declared on an ancestor included, unless the element (or something in between) re-declares the prefix. The
 // Parser contract delivers only an element's own declarations, so the store has to add the parent's. The rules:
 //
-//   (a) there is an inheriting function H(E, ...) in package store with a loop over E.parent's namespaces list in
-//       which a cursor constructor is called with parent = E and the node of the loop element, the result appended
-//       to E's own namespaces list (each element owns its nodes: R10.3), and the call is reached only under a
-//       negative prefix test (a predicate that compares Prefix() values, or the comparison itself);
-//   (b) the event loop calls H(current cursor) exactly once per element, after the element's own declarations and
-//       before anything else of the element is processed or the element is left: simulated per kind of event and
-//       per state of the loop's flag (finite: 5 kinds x 2).
+//	(a) there is an inheriting function H(E, ...) in package store with a loop over E.parent's namespaces list in
+//	    which a cursor constructor is called with parent = E and the node of the loop element, the result appended
+//	    to E's own namespaces list (each element owns its nodes: R10.3), and the call is reached only under a
+//	    negative prefix test (a predicate that compares Prefix() values, or the comparison itself);
+//	(b) the event loop calls H(current cursor) exactly once per element, after the element's own declarations and
+//	    before anything else of the element is processed or the element is left: simulated per kind of event and
+//	    per state of the loop's flag (finite: 5 kinds x 2).
 func (w *World) checkNamespaceInheritance(P string, sf *storeFacts, pullers []*ssa.Function) {
 	docRule(P, "R10.9", "D+F typestate", "namespace inheritance: a function of package store loops over the namespaces list of an element's parent and, for every prefix the element does not declare itself (negative result of a Prefix() comparison), constructs a node with the element as parent and appends it to the element's own list; the event loop calls it with the current cursor exactly once per element: never while the element's own namespace events are still arriving, and before the first attribute, child or end event of that element is processed (checked by simulating one loop iteration for each kind of event and each value of the loop's flag).")
 	// (a) the inheriting function
@@ -597,6 +597,21 @@ func comparesPrefix(fn *ssa.Function) bool {
 		return false
 	}
 	found := false
+	// the comparison may sit in a function literal handed to a search helper (indexNamespace(list, func(n) bool {...}))
+	for g := range staticReach(fn, func(x *ssa.Function) bool { return fnPkgKey(x) == "store" }) {
+		if g == fn || fnPkgKey(g) != "store" {
+			continue
+		}
+		allInstrs(g, func(in ssa.Instruction) {
+			if bo, ok := in.(*ssa.BinOp); ok && bo.Op == token.EQL {
+				_, okx := isMethodCall(bo.X, "Prefix")
+				_, oky := isMethodCall(bo.Y, "Prefix")
+				if okx || oky {
+					found = true
+				}
+			}
+		})
+	}
 	for _, path := range trueReturns(fn) {
 		for _, a := range path {
 			if bo, ok := a.V.(*ssa.BinOp); ok && bo.Op == token.EQL && a.Pol {
